@@ -6,6 +6,25 @@ Property theorems only; helper lemmas live in `KrillModel.Http.Lemmas`.
 `KM.Generated.permSet` … from permission.rs / roles.rs; `KM.Http.Spec` is the hand-written
 specification.  Statements about the table are decided by the kernel (`decide +kernel`); statements
 about roles, callers and requests are proved for all of them.
+
+Clause → theorem (property text of C13 in /verif/properties.jsonl)
+
+| clause of the property                                                        | theorems |
+|---|---|
+| a route that reads/changes CA, pubd or TA state is served only to a caller whose role grants the permission the operation requires, for the CA it addresses | `every_op_gated` (table, vs. `Spec.required`), `every_op_gated_sem` (all roles, requests), `decision_iff` |
+| a per-CA grant takes precedence over the blanket grant, non-CA requests use the general grant | `role_semantics`, `role_conf_semantics` (config-file role forms), `decision_iff` (through `Role.perms`) |
+| … in addition to the login permission for everything under the versioned API  | `api_v1_needs_login`, `api_v1_needs_login_sem` |
+| all other callers receive an authorisation error …                            | `refused_iff` (401/403 of the first refusing gate), `decision_iff` |
+| … and cause no effect                                                         | `not_served_no_calls`, `decision_iff` (no server call unless served) |
+| without credentials only protocol, repository, TA download, health, metrics/statistics, login and UI endpoints are served | `unchecked_only_public` (both directions on the table), `unchecked_only_public_sem` |
+| (and the testbed self-service endpoints when testbed mode is on)              | `testbed_only_when_enabled`, `unchecked_only_public` (`publicIsUngated`: testbed rows ⇔ testbed area) |
+| listing endpoints show a caller only the CAs it may read                      | `listing_filtered`, `listing_filtered_sem`, `listing_anonymous`, `decision_iff` (per item) |
+| quantifier: every route and method                                            | all table theorems range over `routes` (every pattern × GET/POST/DELETE/OTHER, catch-all arms included); `table_complete` |
+| quantifier: every role built from any subset of permissions, with and without per-CA scoping | every `_sem` theorem and `decision_iff` quantify over an arbitrary `Role` (three arbitrary sets + arbitrary per-CA entries); `builtin_roles`, `admin_allowed_everything` for the built-in ones |
+| quantifier: callers with no, wrong or valid credentials                        | `decision_iff` is over every authentication result; composed with the credential chain in `KM.Props.C20.request_decision` |
+
+Which row a concrete method + path selects is not a theorem: the table rows are path *patterns*; the
+correspondence run asks the real daemon every row (and the catch-all arms) and compares.
 -/
 import KrillModel.Http.Lemmas
 namespace KM.Props.C13
@@ -334,6 +353,118 @@ theorem unchecked_only_public_sem (testbed : Bool) (a : AuthRes) (ha : a.isOk = 
   · intro ⟨h1, h2, h3, _⟩
     exact ⟨h1, h2, by simp [h3]⟩
 
+/-! ## `decision_iff`: the daemon's decision is `requires(row) ⊆ permissions(role, ca)` -/
+
+/-- What row `rt` requires of a request with path segments `segs`: for every gate on the dispatch
+path the permission and the resource it is asked for (`none` if the segment does not exist). -/
+def requires (rt : Route) (segs : List String) : List (Permission × Option (Option Handle)) :=
+  rt.gates.map fun g => (g.1, resolve segs g.2)
+
+/-- **The decision for every request.**  For every row of the generated table (every path pattern and
+method), every testbed setting, every authentication result `a` of the request's credentials (an
+identity with an *arbitrary* role – any three permission sets and any per-CA entries, which
+includes the config-file forms `Role.ofConf` –, no identity, or an authentication error) and every
+instantiation `segs` of the path:
+
+* the handler runs **iff** the row ends in a handler, testbed mode allows the row, and every
+  required (permission, resource) pair lies in `permissions(role, resource)` of the caller's role –
+  a row without requirements needs no identity, a row with requirements is never served without one;
+* if the handler does not run, no server operation is reached, and the answer is 401/403 exactly when
+  some requirement is not met (else 404/405 from the dispatch tree);
+* what a listing row shows is filtered item by item: a CA is shown iff the role's permissions *for
+  that CA* contain the filter's permission. -/
+theorem decision_iff (testbed : Bool) (a : AuthRes) (rt : Route) (hrt : rt ∈ routes)
+    (segs : List String) :
+    (respond testbed a rt segs = .served ↔
+      (rt.testbedOnly = true → testbed = true) ∧ rt.fin.runs = true ∧
+      (rt.gates = [] ∨ ∃ id role, a = .ok id role ∧
+        ∀ q ∈ requires rt segs, ∃ res, q.2 = some res ∧ q.1 ∈ role.perms res)) ∧
+    (respond testbed a rt segs ≠ .served → serverCalls testbed a rt segs = []) ∧
+    ((rt.testbedOnly = true → testbed = true) →
+      ((respond testbed a rt segs = .unauthorized ∨ respond testbed a rt segs = .forbidden) ↔
+        ¬ (rt.gates = [] ∨ ∃ id role, a = .ok id role ∧
+          ∀ q ∈ requires rt segs, ∃ res, q.2 = some res ∧ q.1 ∈ role.perms res))) ∧
+    (∀ (all : List Handle) (h : Handle), h ∈ listingShown a rt all ↔
+      h ∈ all ∧ ∀ p, rt.filter = some (p, .listed) →
+        ∃ id role, a = .ok id role ∧ p ∈ role.perms (some h)) := by
+  -- all gates pass ⇔ the requirements are within the role's permissions
+  have hgates : (∀ g ∈ rt.gates, gate a segs g = none) ↔
+      (rt.gates = [] ∨ ∃ id role, a = .ok id role ∧
+        ∀ q ∈ requires rt segs, ∃ res, q.2 = some res ∧ q.1 ∈ role.perms res) := by
+    constructor
+    · intro hall
+      cases hg : rt.gates with
+      | nil => exact Or.inl rfl
+      | cons g gs =>
+        right
+        cases a with
+        | ok id role =>
+          refine ⟨id, role, rfl, ?_⟩
+          intro q hq
+          simp only [requires, List.mem_map] at hq
+          obtain ⟨g', hg', rfl⟩ := hq
+          obtain ⟨res, hres, hal⟩ := (gate_ok_iff id role segs g'.1 g'.2).mp (hall g' hg')
+          exact ⟨res, hres, (isAllowed_iff_mem_perms role g'.1 res).mp hal⟩
+        | none => exact absurd (hall g (by simp [hg])) (gate_unauthenticated .none rfl segs g)
+        | err => exact absurd (hall g (by simp [hg])) (gate_unauthenticated .err rfl segs g)
+    · intro h g hgm
+      rcases h with h | ⟨id, role, rfl, hq⟩
+      · rw [h] at hgm; cases hgm
+      · obtain ⟨res, hres, hmem⟩ := hq (g.1, resolve segs g.2) (by
+          simp only [requires, List.mem_map]; exact ⟨g, hgm, rfl⟩)
+        exact (gate_ok_iff id role segs g.1 g.2).mpr
+          ⟨res, hres, (isAllowed_iff_mem_perms role g.1 res).mpr hmem⟩
+  refine ⟨?_, not_served_no_calls testbed a rt segs, ?_, ?_⟩
+  · rw [served_iff, hgates]
+  · intro htb
+    rw [refused_iff testbed a rt segs htb, ← hgates]
+    constructor
+    · intro ⟨g, hm, hne⟩ hall; exact hne (hall g hm)
+    · intro hnot
+      apply Decidable.byContradiction
+      intro hno
+      apply hnot
+      intro g hm
+      apply Decidable.byContradiction
+      intro hne
+      exact hno ⟨g, hm, hne⟩
+  · intro all h
+    -- the filter of a table row is absent or on the listed handle
+    have hres := (List.all_eq_true.mp table_complete.2.1) rt hrt
+    simp only [rowResolvable, Bool.and_eq_true] at hres
+    cases hf : rt.filter with
+    | none => simp [listingShown, hf]
+    | some f =>
+      obtain ⟨p, r⟩ := f
+      have hr : r = .listed := by simpa [hf] using hres.2
+      subst hr
+      simp only [listingShown, hf, List.mem_filter, Option.some.injEq, Prod.mk.injEq, and_true,
+        forall_eq']
+      constructor
+      · intro ⟨hm, hc⟩
+        refine ⟨hm, ?_⟩
+        cases a with
+        | ok id role =>
+          refine ⟨id, role, rfl, ?_⟩
+          apply (isAllowed_iff_mem_perms role p (some h)).mp
+          simp only [checkPerm] at hc
+          by_cases hal : role.isAllowed p (some h) = true
+          · exact hal
+          · simp [hal] at hc
+        | none => simp [checkPerm, anonymous_allows_nothing] at hc
+        | err => simp [checkPerm] at hc
+      · intro ⟨hm, id, role, ha, hp⟩
+        subst ha
+        refine ⟨hm, ?_⟩
+        have := (isAllowed_iff_mem_perms role p (some h)).mpr hp
+        simp [checkPerm, this]
+
+/-- The testbed self-service rows exist only in testbed mode: with testbed mode off every one of
+them answers 404, whoever asks. -/
+theorem testbed_only_when_enabled (a : AuthRes) (rt : Route) (segs : List String)
+    (h : rt.testbedOnly = true) : respond false a rt segs = .notFound := by
+  simp [respond, h]
+
 /-! ## `role_semantics` -/
 
 /-- `Role::is_allowed`: a per-CA grant overrides the blanket grant – in both directions: an entry
@@ -494,6 +625,25 @@ example :
 /-- There are rows of the versioned API with operations (the hypotheses of `every_op_gated` are
 met by many rows). -/
 example : (routes.filter fun rt => Spec.areaOf rt.path == .api && !rt.ops.isEmpty).length ≥ 60 := by
+  decide +kernel
+
+/-- `decision_iff` in action: the requirements of `DELETE /api/v1/cas/ca2` are
+`[(login, none), (ca-read, ca2), (ca-delete, ca2)]`, all within `exRole`'s permissions (general set /
+the entry of `ca2`); for `ca3` (no entry: blanket set) `ca-delete` is missing; the config-file role
+`{permissions, cas = [ca2]}` may read `ca2` but nothing of `ca3`. -/
+example :
+    ((findRoute [.lit .l_api, .lit .l_v1, .lit .l_cas, .param] .DELETE).any fun d =>
+      (findRoute [.lit .l_api, .lit .l_v1, .lit .l_cas, .param] .GET).any fun g =>
+        requires d ["api", "v1", "cas", "ca2"] ==
+          [(.Login, some none), (.CaRead, some (some "ca2")), (.CaDelete, some (some "ca2"))] &&
+        (requires d ["api", "v1", "cas", "ca2"]).all (fun q =>
+          match q.2 with
+          | some res => (exRole.perms res).contains q.1
+          | none => false) &&
+        !(exRole.perms (some "ca3")).contains .CaDelete &&
+        respond false (.ok "u" (Role.ofConf [.Login, .CaRead] (some ["ca2"]))) g ["api", "v1", "cas", "ca2"] == .served &&
+        respond false (.ok "u" (Role.ofConf [.Login, .CaRead] (some ["ca2"]))) g ["api", "v1", "cas", "ca3"] == .forbidden &&
+        respond false (.ok "u" (Role.ofConf [.Login, .CaRead] none)) g ["api", "v1", "cas", "ca3"] == .served) = true := by
   decide +kernel
 
 end KM.Props.C13
